@@ -67,6 +67,35 @@ def run(ctx):
     ackey = ac[0]
     ess(ctx, A, be, ackey)
     autocov(ctx, ackey, bodies)
+    from_chainstats(ctx, be)
+
+
+def from_chainstats(ctx, be):
+    """the streaming entry point: ess_from_chainstats(sample, cs) = ESS(sample, W, var+) with (W, var+) from the chain statistics, in this
+    order.  Which component is W and which var+ is pinned through collect_rhat = sqrt(second / first) (whose value C13 decides)."""
+    A = 'stats::ess_from_chainstats'
+    b = ctx.anchor(A, path='stats::ess_from_chainstats')
+    bc = ctx.anchor('stats::collect_rhat', path='stats::collect_rhat')
+    if b is None or bc is None:
+        ctx.unknown('C12.efc', A, 'anchor', why='anchor not found (ess_from_chainstats / collect_rhat)')
+        return
+    esskey = strip_generics(be['path'])
+    shared = [k for k in local_callees(ctx, b) if k in local_callees(ctx, bc)]
+    if len(shared) != 1:
+        ctx.unknown('C12.efc', A, 'helper', why='expected exactly one private (W, var+) helper shared by ess_from_chainstats and collect_rhat (found %s)' % shared, sp=b['sp'])
+        return
+    wvk = shared[0]
+    ev = ctx.evaluate(b, no_inline=(esskey, wvk), tag='efc')
+    ps = [p['pat']['name'] for p in b['params'] if p.get('pat', {}).get('k') == 'Binding']
+    smp, cs = S(ps[0]), S(ps[1])
+    R = T.app(wvk, cs)
+    ctx.eq('C12.efc', A, 'wiring', ev.ret_term, T.app(esskey, smp, T.proj(R, 0), T.proj(R, 1)), sp=b['sp'],
+           why='ESS(sample, W, var+): the first component of the chain-statistics helper is W, the second var+ (swapped, rho_t = 1 - (var+ - acov_t)/W)')
+    evc = ctx.evaluate(bc, no_inline=(wvk,), tag='efc')
+    pc = [p['pat']['name'] for p in bc['params'] if p.get('pat', {}).get('k') == 'Binding']
+    Rc = T.app(wvk, S(pc[0]))
+    ctx.eq('C12.efc.roles', 'stats::collect_rhat', 'roles', evc.ret_term, T.app('sqrt', T.div(T.proj(Rc, 1), T.proj(Rc, 0))), sp=bc['sp'],
+           why='collect_rhat = sqrt(second / first) of the same helper: with C13 (collect_rhat = sqrt(var+/W)) this pins first = W, second = var+')
 
 
 def ess(ctx, A, be, ackey):
